@@ -317,6 +317,15 @@ func init() {
 			return e.bytesEq(s, args[0].(*SliceV), args[1].(*SliceV)), true
 		},
 		"internal/stringslite.HasPrefix": hasPrefix,
+		"internal/stringslite.Index":     indexSub,
+		"strings.Index":                  indexSub,
+		"bytes.Index":                    indexSub,
+		"internal/bytealg.IndexString":   indexSub,
+		"internal/bytealg.Index":         indexSub,
+		"strings.Contains": func(e *Engine, s *State, f *Frame, fn *ssa.Function, args []Value, retIdx int, advance bool) (Value, bool) {
+			r, _ := indexSub(e, s, f, fn, args, retIdx, advance)
+			return e.c.Sle(e.c.BV(0, 64), r.(*Term)), true
+		},
 		"strings.HasPrefix":              hasPrefix,
 		"bytes.HasPrefix":                hasPrefix,
 		"errors.New": func(e *Engine, s *State, f *Frame, fn *ssa.Function, args []Value, retIdx int, advance bool) (Value, bool) {
@@ -432,6 +441,15 @@ func init() {
 		"github.com/IrineSistiana/mosproxy/internal/mlog.L":   freshObjIntrinsic,
 		"github.com/IrineSistiana/mosproxy/internal/mlog.Nop": freshObjIntrinsic,
 		"crypto/x509.NewCertPool":                             freshObjIntrinsic,
+		"(*crypto/tls.Config).Clone": func(e *Engine, s *State, f *Frame, fn *ssa.Function, args []Value, retIdx int, advance bool) (Value, bool) {
+			p := args[0].(*Pointer)
+			if p.IsNil() {
+				return &Pointer{}, true
+			}
+			v := e.load(s, p)
+			o := e.newObj(s, v, s.obj(p.Obj).T, "tls.Config.Clone@"+e.curPos(s))
+			return &Pointer{Obj: o.ID}, true
+		},
 		"runtime.KeepAlive":          noopIntrinsic,
 		"runtime.GC":                 noopIntrinsic,
 		"runtime/debug.FreeOSMemory": noopIntrinsic,
@@ -910,4 +928,26 @@ func errorsAs(e *Engine, s *State, f *Frame, fn *ssa.Function, args []Value, ret
 		cur = e.load(s, cur.V.(*Pointer)).(*StructV).Fields[1].(*IfaceV)
 	}
 	return e.c.False, true
+}
+
+// indexSub: first index of needle (concrete length) in haystack, or -1; an ite chain over a bounded length.
+func indexSub(e *Engine, s *State, f *Frame, fn *ssa.Function, args []Value, retIdx int, advance bool) (Value, bool) {
+	c := e.c
+	h, nd := args[0].(*SliceV), args[1].(*SliceV)
+	m := e.concretize(s, nd.Len, "needle length")
+	n := e.upper(s, h.Len, 1<<16)
+	ha, na := e.arrOf(s, h), e.arrOf(s, nd)
+	r := c.BV(^uint64(0), 64)
+	if m == 0 {
+		return c.BV(0, 64), true
+	}
+	for i := int64(n) - int64(m); i >= 0; i-- {
+		it := c.BV(uint64(i), 64)
+		hit := c.Ule(c.BV(uint64(i)+m, 64), h.Len)
+		for j := uint64(0); j < m; j++ {
+			hit = c.And(hit, c.Eq(e.baRead(ha, c.Add(h.Off, c.BV(uint64(i)+j, 64))), e.baRead(na, c.Add(nd.Off, c.BV(j, 64)))))
+		}
+		r = c.Ite(hit, it, r)
+	}
+	return r, true
 }
